@@ -9,6 +9,7 @@ import (
 	"log"
 	"net"
 	"net/http"
+	"sync"
 	"time"
 )
 
@@ -30,6 +31,10 @@ type Kdc struct {
 	Proto string
 	Conn  net.Conn
 }
+
+// GetKDCs puts the KDCs of a realm in a random order inside the configuration
+// that all requests share
+var kdcListMu sync.Mutex
 
 type KerberosProxy struct {
 	krb5Config *krbconfig.Config
@@ -105,13 +110,16 @@ func (k *KerberosProxy) forward(realm string, data []byte) (resp []byte, err err
 	}
 
 	// load udp first as is the default for kerberos
+	kdcListMu.Lock()
 	udpCnt, udpKdcs, err := k.krb5Config.GetKDCs(realm, false)
 	if err != nil {
+		kdcListMu.Unlock()
 		return nil, fmt.Errorf("cannot get udp kdc for realm %s due to %s", realm, err)
 	}
 
 	// load tcp
 	tcpCnt, tcpKdcs, err := k.krb5Config.GetKDCs(realm, true)
+	kdcListMu.Unlock()
 	if err != nil {
 		return nil, fmt.Errorf("cannot get tcp kdc for realm %s due to %s", realm, err)
 	}
